@@ -4,7 +4,8 @@
 //!
 //! * `idle.run <kind> <when> <k>` — in a child process: create `k` caches with hot-reloading over
 //!   `kind` ∈ `mem-keep` (in-memory source that keeps its `EventSender`), `mem-nosender` (the sender is
-//!   dropped right after creation), `fs` (`FileSystem` on a temp dir, real watcher); use them; measure
+//!   dropped right after creation), `mem-neversender` (a source that never stores the sender it is
+//!   handed), `mem-latedrop` (the sender is dropped after the cache has been used for a while), `fs` (`FileSystem` on a temp dir, real watcher); use them; measure
 //!   every reloader thread while the caches are alive and idle; then — `when` ∈ `idle`,
 //!   `after-reload` (a `hot_reload()` immediately before), `queued-events` (a burst of events
 //!   immediately before), `after-loads` (a burst of loads immediately before) — drop all caches and
@@ -28,7 +29,7 @@ use std::time::{Duration, Instant};
 #[derive(Default)]
 pub struct IdleEngine;
 
-const KINDS: &[&str] = &["mem-keep", "mem-nosender", "fs"];
+const KINDS: &[&str] = &["mem-keep", "mem-nosender", "fs", "mem-neversender", "mem-latedrop"];
 const WHENS: &[&str] = &["idle", "after-reload", "queued-events", "after-loads"];
 const BURST: usize = 24;
 
@@ -47,6 +48,9 @@ impl Engine for IdleEngine {
             // bounded-exhaustive slice: every source kind × every moment of the drop, one cache
             return vec![format!("idle.run {} {} 1", KINDS[idx % 3], WHENS[idx / 3])];
         }
+        // a LIVE cache whose source released its sender (never stored / dropped later)
+        if idx == 13 { return vec!["idle.run mem-neversender idle 1".into()]; }
+        if idx == 14 { return vec!["idle.run mem-latedrop after-reload 2".into()]; }
         if idx == 12 {
             // every combination of the primitive's inputs over {0,1} messages
             let mut l = vec![];
@@ -199,7 +203,18 @@ fn summarise(vs: &[V]) -> String {
     if vs.iter().all(|v| *v == vs[0]) { vs[0].name().into() } else { format!("mixed({})", vs.iter().map(|v| v.name()).collect::<Vec<_>>().join(",")) }
 }
 
-enum AnyCacheBox { Mem(AssetCache<MemSource>, MemSource), Fs(AssetCache<assets_manager::source::FileSystem>, std::path::PathBuf) }
+/// An in-memory source that supports hot-reloading but never keeps the `EventSender` it is given.
+#[derive(Clone)]
+struct NeverStores(MemSource);
+impl assets_manager::source::Source for NeverStores {
+    fn read(&self, id: &str, ext: &str) -> std::io::Result<assets_manager::source::FileContent<'_>> { self.0.read(id, ext) }
+    fn read_dir(&self, id: &str, f: &mut dyn FnMut(assets_manager::source::DirEntry)) -> std::io::Result<()> { self.0.read_dir(id, f) }
+    fn exists(&self, entry: assets_manager::source::DirEntry) -> bool { self.0.exists(entry) }
+    fn make_source(&self) -> Option<Box<dyn assets_manager::source::Source + Send>> { Some(Box::new(self.clone())) }
+    fn configure_hot_reloading(&self, events: assets_manager::hot_reloading::EventSender) -> Result<(), assets_manager::BoxedError> { drop(events); Ok(()) }
+}
+
+enum AnyCacheBox { Mem(AssetCache<MemSource>, MemSource), Never(AssetCache<NeverStores>, MemSource), Fs(AssetCache<assets_manager::source::FileSystem>, std::path::PathBuf) }
 
 pub fn child_main(line: &str) {
     let w: Vec<&str> = line.split_whitespace().collect();
@@ -218,9 +233,11 @@ pub fn child_main(line: &str) {
         } else {
             let src = MemSource::new(true);
             for i in 0..BURST { src.put(&format!("a{i}"), "s", FileSt::Bytes(format!("{i}").into_bytes().into(), 0)); }
-            let cache = AssetCache::with_source(src.clone());
-            if kind == "mem-nosender" { drop(src.lock().sender.take()); }
-            AnyCacheBox::Mem(cache, src)
+            if kind == "mem-neversender" { AnyCacheBox::Never(AssetCache::with_source(NeverStores(src.clone())), src) } else {
+                let cache = AssetCache::with_source(src.clone());
+                if kind == "mem-nosender" { drop(src.lock().sender.take()); }
+                AnyCacheBox::Mem(cache, src)
+            }
         };
         // the thread this cache started (it is spawned synchronously by the constructor)
         let t0 = Instant::now();
@@ -238,9 +255,15 @@ pub fn child_main(line: &str) {
     for c in &caches {
         match c {
             AnyCacheBox::Mem(cache, _) => { for i in 0..4 { let _ = cache.load::<S<0>>(&format!("a{i}")); } cache.hot_reload(); }
+            AnyCacheBox::Never(cache, _) => { for i in 0..4 { let _ = cache.load::<S<0>>(&format!("a{i}")); } cache.hot_reload(); }
             AnyCacheBox::Fs(cache, _) => { for i in 0..4 { let _ = cache.load::<String>(&format!("a{i}")); } cache.hot_reload(); }
         }
         child::progress();
+    }
+    if kind == "mem-latedrop" {
+        // the source releases its sender only now, after the caches have been in use
+        std::thread::sleep(Duration::from_millis(30));
+        for c in &caches { if let AnyCacheBox::Mem(_, src) = c { drop(src.lock().sender.take()); } }
     }
     std::thread::sleep(Duration::from_millis(60));
     // quiet while idle?
@@ -252,6 +275,8 @@ pub fn child_main(line: &str) {
         match (when.as_str(), c) {
             ("after-reload", AnyCacheBox::Mem(cache, _)) => cache.hot_reload(),
             ("after-reload", AnyCacheBox::Fs(cache, _)) => cache.hot_reload(),
+            ("after-reload", AnyCacheBox::Never(cache, _)) => cache.hot_reload(),
+            ("after-loads", AnyCacheBox::Never(cache, _)) => { for i in 0..BURST { let _ = cache.load::<S<0>>(&format!("a{i}")); } }
             ("queued-events", AnyCacheBox::Mem(_, src)) => { if let Some(tx) = src.sender() { for i in 0..BURST { let _ = tx.send(OwnedDirEntry::File(format!("a{}", i % 4).into(), "s".into())); } } }
             ("queued-events", AnyCacheBox::Fs(_, dir)) => { for i in 0..BURST { let _ = std::fs::write(dir.join(format!("a{}.txt", i % 4)), format!("w{i}")); } }
             ("after-loads", AnyCacheBox::Mem(cache, _)) => { for i in 0..BURST { let _ = cache.load::<S<0>>(&format!("a{i}")); } }
@@ -260,7 +285,7 @@ pub fn child_main(line: &str) {
         }
     }
     let mut keep_sources = vec![];
-    for c in caches { match c { AnyCacheBox::Mem(cache, src) => { drop(cache); keep_sources.push(src); } AnyCacheBox::Fs(cache, _) => drop(cache) } }
+    for c in caches { match c { AnyCacheBox::Mem(cache, src) => { drop(cache); keep_sources.push(src); } AnyCacheBox::Never(cache, src) => { drop(cache); keep_sources.push(src); } AnyCacheBox::Fs(cache, _) => drop(cache) } }
     child::progress();
     // give the threads a short time to go away, then look at those that are still there
     let t0 = Instant::now();
